@@ -28,6 +28,7 @@ TOLS = ["default", "default", "none", F(1, 10 ** 12), F(1, 10 ** 6), F(1, 1000),
 @st.composite
 def roundtrip_cases(draw, nums=("frac",)):
     c = draw(gen.curves(0, 3 if nums != ("frac",) else 4, 3, nums=nums, rational=draw(st.integers(0, 4)) < 2))
+    c = draw(gen.weight_magnitude(c))
     U, p = c["U"], c["p"]
     bk = gen.breaks_of(U)
     pool = list(bk[1:-1]) * 2
@@ -121,6 +122,7 @@ def check_roundtrip(case, out):
 @st.composite
 def generic_cases(draw, nums=("frac",)):
     c = draw(gen.curves(0, 4, 4, nums=nums, rational=draw(st.integers(0, 4)) < 2))
+    c = draw(gen.weight_magnitude(c))
     bk = gen.breaks_of(c["U"])
     inner = bk[1:-1]
     kind = draw(st.sampled_from(["interior", "interior", "interior", "absent", "end", "too-many"]))
